@@ -14,6 +14,7 @@ import (
 
 	"github.com/youchainhq/go-youchain/bls"
 	"github.com/youchainhq/go-youchain/common"
+	"github.com/youchainhq/go-youchain/consensus"
 	"github.com/youchainhq/go-youchain/consensus/solo"
 	"github.com/youchainhq/go-youchain/core"
 	"github.com/youchainhq/go-youchain/core/state"
@@ -244,6 +245,7 @@ type Node struct {
 	Staking *staking.Staking
 	Mux     *event.TypeMux
 	Engine  *solo.Solo
+	Ucon    bool // opened with the Ucon-shaped stub engine (side-chain import paths active)
 }
 
 func copyDB(src *youdb.MemDatabase) *youdb.MemDatabase {
@@ -267,27 +269,41 @@ func NewNode(f *Fixture) *Node {
 }
 
 func openNode(db *youdb.MemDatabase, pendingEv []staking.Evidence) *Node {
+	return openNodeWith(db, pendingEv, false)
+}
+
+func openNodeWith(db *youdb.MemDatabase, pendingEv []staking.Evidence, ucon bool) *Node {
 	eng := solo.NewSolo()
 	eng.Update(true, 0, 1)
+	var engine consensus.Engine = eng
+	if ucon {
+		stub := NewStubUcon()
+		eng, engine = stub.Solo, stub
+	}
 	mux := new(event.TypeMux)
-	bc, err := core.NewBlockChain(db, eng, mux, params.ArchiveNode, local.FakeDetailDB())
+	bc, err := core.NewBlockChain(db, engine, mux, params.ArchiveNode, local.FakeDetailDB())
 	if err != nil {
 		panic(err)
 	}
 	st := staking.NewStaking(nil) // nil mux: no background goroutines; evidences are injected
 	st.Register(bc.Processor())
-	if err := st.Start(bc, eng); err != nil {
+	if err := st.Start(bc, engine); err != nil {
 		panic(err)
 	}
 	for _, e := range pendingEv {
 		st.VerifAddEvidence(e)
 	}
-	return &Node{DB: db, BC: bc, Staking: st, Mux: mux, Engine: eng}
+	return &Node{DB: db, BC: bc, Staking: st, Mux: mux, Engine: eng, Ucon: ucon}
 }
 
 // Fork returns an independent node with the same chain, state and pending evidences.
 func (n *Node) Fork() *Node {
-	return openNode(copyDB(n.DB), n.Staking.VerifEvidences())
+	return openNodeWith(copyDB(n.DB), n.Staking.VerifEvidences(), n.Ucon)
+}
+
+// ForkUcon is Fork with the Ucon-shaped stub engine (importer whose side-chain paths are active).
+func (n *Node) ForkUcon() *Node {
+	return openNodeWith(copyDB(n.DB), n.Staking.VerifEvidences(), true)
 }
 
 // Close releases the goroutines NewBlockChain started.
